@@ -282,6 +282,19 @@ Theorem C12_reconnect_split_check_refuted :
   dials (fold_left kstep [KCheck 0; KCheck 1; KSet 0; KSet 1] kinit) = 2.
 Proof. exact reconnect_split_check_refuted. Qed.
 
+(** The length prefix of the query bytes (adnl.message.query) and of the answer bytes
+    (adnl.message.answer): what one side writes the other reads back, for every size
+    below 2^24 - so a raw Request of ANY size reaches the server decodable and its
+    answer comes back whole (sizes 253/254/255 are where the two forms meet).  The
+    variant that keeps the short form for 254 is refuted. *)
+Theorem C12_len_prefix_roundtrip :
+  forall n r, (n < 16777216)%N -> dec_len (enc_len n ++ r) = Some (n, r).
+Proof. exact len_prefix_roundtrip. Qed.
+
+Theorem C12_len_prefix_gt_refuted :
+  exists r, dec_len (enc_len_gt 254 ++ r) <> Some (254%N, r).
+Proof. exact len_prefix_gt_refuted. Qed.
+
 (** PARTIAL (liveness): after a drop the path ping failure -> reconnect -> done is
     enabled and re-establishes the connection; that it is taken within a bounded
     time is a fairness / wall-clock fact, not proved. *)
